@@ -64,6 +64,43 @@
         std::mem::forget(v);
     }
 
+
+//# ob name=roundtrip_option_u64 fn=value::serialize::ValueSerializer+value::deserialize kind=complete stmt="Option<u64>: None serialises to none and Some(x) to x, and both deserialise back (for every x)"
+    #[kani::proof]
+    #[kani::unwind(3)]
+    fn roundtrip_option_u64() {
+        let x: Option<u64> = kani::any();
+        let v = Value::from(Serde(x));
+        match (x, &v.0) { (None, ValueRepr::None) => {} (Some(a), ValueRepr::U64(b)) => { assert!(a == *b); } _ => { assert!(false); } }
+        let back = <Option<u64> as serde::Deserialize>::deserialize(v.clone());
+        match back { Ok(y) => { assert!(y == x); } Err(e) => { std::mem::forget(e); assert!(false); } }
+        kani::cover!(x.is_none(), "none");
+        kani::cover!(x.is_some(), "some");
+        std::mem::forget(v);
+    }
+//# ob name=roundtrip_unit fn=value::serialize::ValueSerializer+value::deserialize kind=complete stmt="the unit value serialises to none and deserialises back"
+    #[kani::proof]
+    #[kani::unwind(3)]
+    fn roundtrip_unit() {
+        let v = Value::from(Serde(()));
+        assert!(matches!(v.0, ValueRepr::None));
+        let back = <() as serde::Deserialize>::deserialize(v.clone());
+        match back { Ok(()) => {} Err(e) => { std::mem::forget(e); assert!(false); } }
+        kani::cover!(true, "reached");
+        std::mem::forget(v);
+    }
+//# ob name=roundtrip_i128 fn=value::serialize::ValueSerializer+value::deserialize kind=complete tier=thorough stmt="every i128 round-trips (I128 repr, narrowed to I64 when it fits or kept wide: value preserved)"
+    #[kani::proof]
+    #[kani::unwind(3)]
+    fn roundtrip_i128() {
+        let x: i128 = kani::any();
+        let v = Value::from(Serde(x));
+        let back = <i128 as serde::Deserialize>::deserialize(v.clone());
+        match back { Ok(y) => { assert!(y == x); } Err(e) => { std::mem::forget(e); assert!(false); } }
+        kani::cover!(true, "reached");
+        std::mem::forget(v);
+    }
+
     // ---- composites, embedded values and tojson: induction over serde's trait-generic data model has no
     // function-level contract; BOUNDED native stand-in.
 //# ob name=serde_box_native role=native_bounded fn=value::serialize+value::deserialize+filters::tojson kind=bounded bound="a fixed family of 40 serde values (options, chars, strings with control characters / U+2028 / metacharacters, byte strings, nested sequences, tuples, maps with integer and string keys, structs, enums of every variant shape incl. newtype variants holding None / unit, flattened enums) plus embedded Values (safe string, undefined, none, dynamic object); tojson in compact and pretty (indent) modes over 30 values incl. non-finite floats and non-string keys" stmt="serialising a value into a template value and deserialising it back yields the original; embedded template values come back as the very same values; tojson output (compact and pretty) parses back to an equal JSON value and contains none of < > & '"
